@@ -1097,3 +1097,7 @@ mod tests {
         assert_ron_snapshot!(output);
     }
 }
+
+#[cfg(kani)]
+#[path = "/verif/harness/blob_packer.rs"]
+pub(crate) mod verif_harness;
